@@ -1059,7 +1059,12 @@ func vlAttempt(t *testing.T, cfg *vlCfg, l *vpLoaded, step *vlStep, runners []*v
 			inv[i].FreeMemory = step.Free[i]
 		}
 		s.getGpuFn = func() discover.GpuInfoList { return append(discover.GpuInfoList(nil), inv...) }
-		s.getCpuFn = func() discover.GpuInfoList { panic("cpu list requested") }
+		s.getCpuFn = func() discover.GpuInfoList {
+			if len(inv) == 1 && inv[0].Library == "cpu" {
+				return append(discover.GpuInfoList(nil), inv...)
+			}
+			panic("cpu list requested")
+		}
 		s.reschedDelay = time.Millisecond
 		refs := map[string]*runnerRef{}
 		for _, r := range runners {
@@ -1511,6 +1516,192 @@ func TestVerifC16Load(t *testing.T) {
 			for _, ln := range links {
 				os.Remove(ln)
 			}
+		}
+		os.RemoveAll(dir)
+	}
+}
+
+// ---------------------------------------------------------------------------------------------
+// the CPU branch of the REAL Scheduler.processPending (`len(gpus) == 1 && gpus[0].Library == "cpu"`)
+//
+//   L1: load (numParallel) | evict == oracle `c16cpu` (model `cpuDecision`: first model loads; next to loaded models only
+//       if the estimate's TotalSize <= free system memory — maybeFindCPURunnerToUnload).
+//   L2: `cpu-load-exceeds-system-memory` (loaded next to other models although the real estimate's TotalSize exceeds the
+//       free system memory), `cpu-load-offloads` (layers offloaded in CPU mode).
+
+type vuCfg struct {
+	Kind    string `json:"kind"` // "cpu"
+	M       vpCfg  `json:"m"`    // model + options; GPUs = the single "cpu" entry (Free = free system memory)
+	Runners int    `json:"runners"`
+	Busy    bool   `json:"busy,omitempty"`
+}
+
+func vuRun(t *testing.T, out *zzverif.Out, cfg *vuCfg, l *vpLoaded, variant int) {
+	js, _ := json.Marshal(cfg)
+	caseLine := string(js)
+	os.Setenv("OLLAMA_GPU_OVERHEAD", strconv.FormatUint(cfg.M.Overhead, 10))
+	os.Setenv("OLLAMA_SCHED_SPREAD", "")
+	os.Setenv("OLLAMA_NUM_PARALLEL", strconv.Itoa(max(cfg.M.Parallel, 0)))
+	os.Setenv("OLLAMA_MAX_LOADED_MODELS", "64")
+	lc := &vlCfg{Kind: "load", M: cfg.M}
+	step := &vlStep{Free: []uint64{cfg.M.GPUs[0].Free}, RefBusy: cfg.Busy}
+	var runners []*vlRunner
+	for i := 0; i < cfg.Runners; i++ {
+		runners = append(runners, &vlRunner{name: fmt.Sprintf("other%d", i), ids: []int{0}, sizes: []uint64{0}})
+	}
+	b := func(x bool) int {
+		if x {
+			return 1
+		}
+		return 0
+	}
+	ps := []int{defaultParallel, 1}
+	if cfg.M.Parallel > 1 && cfg.M.Parallel != defaultParallel {
+		ps = append(ps, cfg.M.Parallel)
+	}
+	var sb strings.Builder
+	fmt.Fprintf(&sb, "c16cpu %d %d %d %d %d", cfg.M.Parallel, b(cfg.M.Mllama), b(cfg.M.Embed), defaultParallel, len(ps))
+	for _, p := range ps {
+		fmt.Fprintf(&sb, " %d %s", p, vpCommon(&cfg.M, l, variant, cfg.M.OrigNumCtx*p, p))
+	}
+	fmt.Fprintf(&sb, " %d %d %d", cfg.M.GPUs[0].Free, cfg.M.GPUs[0].Min, cfg.Runners)
+	name := l.path + ".cpureq"
+	os.Remove(name)
+	if err := os.Link(l.path, name); err != nil {
+		panic(err)
+	}
+	defer os.Remove(name)
+	var res vlOutcome
+	impl := ""
+	func() {
+		defer func() {
+			if x := recover(); x != nil {
+				impl = "panic:" + strings.ReplaceAll(fmt.Sprint(x), "\n", " ")
+			}
+		}()
+		res = vlAttempt(t, lc, l, step, runners, name)
+	}()
+	if impl == "" {
+		switch res.kind {
+		case "load":
+			impl = fmt.Sprintf("load ids=%s free=%s p=%d", vpIds(res.gpus), vlFrees(res.gpus), res.p)
+		default:
+			impl = res.kind
+		}
+	}
+	out.Case(sb.String(), impl)
+	out.Count("cpu_cases")
+	out.Count(fmt.Sprintf("cpu_runners_%d", min(cfg.Runners, 2)))
+	if strings.HasPrefix(impl, "panic:") || strings.HasPrefix(impl, "err:") || impl == "none" || impl == "delay" {
+		out.L2("panic", caseLine, "cpu branch: "+impl)
+		return
+	}
+	if res.kind == "evict" {
+		out.Count("cpu_decision_evict")
+		return
+	}
+	out.Count("cpu_decision_load")
+	out.Count(fmt.Sprintf("cpu_p_%d", res.p))
+	np := 1
+	if cfg.M.OrigNumCtx > 0 {
+		np = res.opts.NumCtx / cfg.M.OrigNumCtx
+	}
+	e := llm.EstimateGPULayers(append(discover.GpuInfoList(nil), res.gpus...), l.f, l.projs, res.opts, np)
+	if e.Layers != 0 || e.VRAMSize != 0 {
+		out.L2("cpu-load-offloads", caseLine, fmt.Sprintf("layers=%d vram=%d in CPU mode", e.Layers, e.VRAMSize))
+	}
+	if cfg.Runners > 0 {
+		out.Count("cpu_load_next_to_loaded")
+		if e.TotalSize > cfg.M.GPUs[0].Free {
+			out.L2("cpu-load-exceeds-system-memory", caseLine, fmt.Sprintf("%d model(s) loaded, new model needs TotalSize=%d > free system memory=%d (numParallel=%d NumCtx=%d)", cfg.Runners, e.TotalSize, cfg.M.GPUs[0].Free, res.p, res.opts.NumCtx))
+		}
+	}
+}
+
+func TestVerifC16Cpu(t *testing.T) {
+	slog.SetDefault(slog.New(slog.NewTextHandler(io.Discard, nil)))
+	t.Setenv("OLLAMA_FLASH_ATTENTION", "")
+	t.Setenv("OLLAMA_KV_CACHE_TYPE", "")
+	t.Setenv("OLLAMA_GPU_OVERHEAD", "0")
+	t.Setenv("OLLAMA_SCHED_SPREAD", "")
+	t.Setenv("OLLAMA_NUM_PARALLEL", "0")
+	t.Setenv("OLLAMA_MAX_LOADED_MODELS", "64")
+	out := zzverif.NewOut()
+	defer out.Close()
+	base := t.TempDir()
+	if rp := os.Getenv("VERIF_REPLAY"); rp != "" {
+		raw, err := os.ReadFile(rp)
+		if err != nil {
+			t.Fatal(err)
+		}
+		var cfg vuCfg
+		if err := json.Unmarshal(bytes.TrimSpace(raw), &cfg); err != nil || cfg.Kind != "cpu" {
+			t.Fatalf("replay case is not a C16 CPU-branch configuration: %v", err)
+		}
+		l := vpLoad(base, &cfg.M)
+		vuRun(t, out, &cfg, l, vpVariant(l))
+		return
+	}
+	target := zzverif.EnvInt("VERIF_N", 600)
+	root := zzverif.NewRng(zzverif.Seed() ^ 0xC90)
+	cases := 0
+	for cases < target {
+		r := root.Fork()
+		cfg := &vuCfg{Kind: "cpu", M: *vpGen(r)}
+		cfg.M.Embed = r.Chance(1, 10)
+		cfg.M.Mllama = r.Chance(1, 10)
+		if cfg.M.Parallel < 0 {
+			cfg.M.Parallel = 0
+		}
+		dir, err := os.MkdirTemp(base, "c")
+		if err != nil {
+			t.Fatal(err)
+		}
+		l := vpLoad(dir, &cfg.M)
+		variant := vpVariant(l)
+		peff := cfg.M.Parallel
+		if cfg.M.Embed || cfg.M.Mllama {
+			peff = 1
+		}
+		if peff <= 0 {
+			peff = defaultParallel
+		}
+		total := func(free uint64) uint64 {
+			os.Setenv("OLLAMA_GPU_OVERHEAD", strconv.FormatUint(cfg.M.Overhead, 10))
+			g := discover.GpuInfo{Library: "cpu", ID: "G0"}
+			g.FreeMemory = free
+			o := api.DefaultOptions()
+			o.NumGPU = cfg.M.NumGPU
+			o.NumBatch = cfg.M.NumBatch
+			o.NumCtx = cfg.M.OrigNumCtx * peff
+			return llm.EstimateGPULayers([]discover.GpuInfo{g}, l.f, l.projs, o, peff).TotalSize
+		}
+		need := total(1 << 60)
+		for k := 0; k < 6; k++ {
+			rr := r.Fork()
+			var free uint64
+			switch rr.Intn(5) {
+			case 0:
+				free = need / 8 * uint64(rr.Range(0, 7))
+			case 1:
+				free = need + need/8*uint64(rr.Range(0, 8))
+			default: // around the comparison TotalSize <= free (TotalSize itself depends on free: the CPU entry is "admitted" or not)
+				free = total(need) + uint64(rr.Intn(3)) - 1
+				if rr.Bool() {
+					free = total(free) + uint64(rr.Intn(3)) - 1
+				}
+			}
+			cfg.M.GPUs = []vsGPU{{Lib: "cpu", Free: free, Total: free + uint64(rr.Intn(1<<30)), Min: zzverif.Pick(rr, []uint64{0, 0, 457 << 20})}}
+			cfg.M.Variants = nil
+			cfg.Runners = zzverif.Pick(rr, []int{0, 1, 1, 2, 3})
+			cfg.Busy = rr.Chance(1, 4)
+			if rr.Chance(1, 8) {
+				cfg.M.NumGPU = 0 // getCpuFn path
+			} else if cfg.M.NumGPU == 0 {
+				cfg.M.NumGPU = -1
+			}
+			vuRun(t, out, cfg, l, variant)
+			cases++
 		}
 		os.RemoveAll(dir)
 	}
